@@ -9,6 +9,7 @@ import (
 	"io"
 	"log"
 	"sync"
+	"testing/synctest"
 	"time"
 
 	ocr2types "github.com/smartcontractkit/libocr/offchainreporting2plus/types"
@@ -125,18 +126,41 @@ func (s *c17Source) GetActiveUpkeepIDs(context.Context) ([]ocr2keepersv2.UpkeepI
 	return out, nil
 }
 
-type c17Heads struct{ ch chan ocr2keepersv2.BlockKey }
+// c17Heads hands every head loop that asks its own channel (in the order they ask): two observers on one factory must
+// not steal each other's heads, and the harness feeds a head to every loop that is listening.
+type c17Heads struct {
+	mu    sync.Mutex
+	chans []chan ocr2keepersv2.BlockKey
+}
 
-func (h *c17Heads) HeadTicker() chan ocr2keepersv2.BlockKey { return h.ch }
+func (h *c17Heads) HeadTicker() chan ocr2keepersv2.BlockKey {
+	h.mu.Lock()
+	defer h.mu.Unlock()
+	ch := make(chan ocr2keepersv2.BlockKey)
+	h.chans = append(h.chans, ch)
+	return ch
+}
+func (h *c17Heads) all() []chan ocr2keepersv2.BlockKey {
+	h.mu.Lock()
+	defer h.mu.Unlock()
+	return append([]chan ocr2keepersv2.BlockKey(nil), h.chans...)
+}
 
 // the two factories hand the plugin the repository's own objects and keep a reference for the harness
 type c17CoordFactory struct {
 	inner *coordinator.CoordinatorFactory
 	got   ocr2keepersv2.Coordinator
+	// logs for the next coordinator (each instance polls a provider of its own: two pollers on one provider would
+	// take each other's logs)
+	next coordinator.LogProvider
 }
 
 func (f *c17CoordFactory) NewCoordinator(c config.OffchainConfig) (ocr2keepersv2.Coordinator, error) {
-	co, err := f.inner.NewCoordinator(c)
+	inner := *f.inner
+	if f.next != nil {
+		inner.Logs = f.next
+	}
+	co, err := inner.NewCoordinator(c)
 	f.got = co
 	return co, err
 }
@@ -173,7 +197,7 @@ func c17NewNode(in c17Input, logs *c17Logs) (*c17Node, error) {
 		rc.Start()
 		return &c17Node{coord: rc, close: func() { rc.Close() }}, nil
 	}
-	n := &c17Node{run: &c17Runner{elig: map[string]bool{}}, src: &c17Source{}, heads: &c17Heads{ch: make(chan ocr2keepersv2.BlockKey)}}
+	n := &c17Node{run: &c17Runner{elig: map[string]bool{}}, src: &c17Source{}, heads: &c17Heads{}}
 	enc := c17Enc{}
 	cf := &c17CoordFactory{inner: &coordinator.CoordinatorFactory{Logger: c17Quiet, Encoder: encoding.BasicEncoder{}, Logs: logs, CacheClean: time.Duration(in.Cfg.Clean)}}
 	of := &c17ObsFactory{inner: &polling.PollingObserverFactory{Logger: c17Quiet, Source: n.src, Heads: n.heads, Runner: n.run, Encoder: enc}}
@@ -183,7 +207,26 @@ func c17NewNode(in c17Input, logs *c17Logs) (*c17Node, error) {
 	}
 	conf := fmt.Sprintf(`{"performLockoutWindow":%d,"minConfirmations":%d,"maxUpkeepBatchSize":10,"gasLimitPerReport":5000000,"gasOverheadPerUpkeep":1}`,
 		in.Cfg.Lockout/int64(time.Millisecond), in.Cfg.MinConfs)
-	p, _, err := fac.NewReportingPlugin(context.Background(), ocr2types.ReportingPluginConfig{OracleID: 0, N: 4, F: 1, OffchainConfig: []byte(conf)})
+	// the context of NewReportingPlugin is libocr's INITIALISATION context: it ends as soon as the instance exists
+	create := func(lp coordinator.LogProvider) (ocr2types.ReportingPlugin, error) {
+		cf.next = lp
+		ctx, cancel := context.WithCancel(context.Background())
+		p, _, err := fac.NewReportingPlugin(ctx, ocr2types.ReportingPluginConfig{OracleID: 0, N: 4, F: 1, OffchainConfig: []byte(conf)})
+		cancel()
+		synctest.Wait()
+		return p, err
+	}
+	// libocr uses ONE factory for every instance: another instance of the same factory is created first and is still
+	// open when (Decoy "open": and while) the instance under test works, or is closed right after it exists ("closeEarly")
+	var decoy ocr2types.ReportingPlugin
+	if in.Decoy != "" {
+		d, err := create(&c17Logs{start: logs.start})
+		if err != nil {
+			return nil, err
+		}
+		decoy = d
+	}
+	p, err := create(logs)
 	if err != nil {
 		return nil, err
 	}
@@ -192,7 +235,17 @@ func c17NewNode(in c17Input, logs *c17Logs) (*c17Node, error) {
 		return nil, errors.New("factories did not produce a coordinator / observer")
 	}
 	n.plugin, n.coord, n.obs = p, co, of.got
-	n.close = func() { p.Close() }
+	if decoy != nil && in.Decoy == "closeEarly" {
+		decoy.Close()
+		synctest.Wait()
+		decoy = nil
+	}
+	n.close = func() {
+		p.Close()
+		if decoy != nil {
+			decoy.Close()
+		}
+	}
 	return n, nil
 }
 
@@ -253,10 +306,18 @@ func (n *c17Node) do(i int, op c17Op, wait func()) (out c17Out, note string) {
 		n.src.mu.Lock()
 		n.src.ids = op.Active
 		n.src.mu.Unlock()
-		n.run.set(false, op.Ids)
-		n.heads.ch <- ocr2keepersv2.BlockKey(op.Block)
-		wait()
-		calls := n.run.take()
+		// every head loop that is listening gets the head (the instance under test last); a loop that does not take it
+		// within a nanosecond of virtual time is not listening any more
+		var calls [][]string
+		for _, ch := range n.heads.all() {
+			n.run.set(false, op.Ids)
+			select {
+			case ch <- ocr2keepersv2.BlockKey(op.Block):
+			case <-time.After(time.Nanosecond):
+			}
+			wait()
+			calls = n.run.take()
+		}
 		if len(op.Active) > 0 {
 			if len(calls) != 1 || len(calls[0]) != len(op.Active) {
 				note = fmt.Sprintf("head %s: runner calls %v for %d active ids", op.Block, calls, len(op.Active))
